@@ -22,6 +22,7 @@ OPS = {
     "payload_length=": [1, 32, 33, 0, -1, 8, [1, -1, 20, 0], [40, 5]], "payload_length": [None],
     "set_payload_length": [(8, 0), (32, 5), (1, 1), (8, None), (8, 6), (40, 2), (0, 3), (5, -1)],
     "get_payload_length": [0, 3, 5, 6, -1],
+    "load_ack": [(1, 1), (32, 0), (5, 5), (0, 1), (33, 1), (3, 6), (3, -1)],
     "ack=": [True, False], "ack": [None], "allow_ask_no_ack=": [True, False], "allow_ask_no_ack": [None],
     "interrupt_config": [(True, True, True), (False, False, False), (True, False, True), (False, True, False)],
     "power=": [True, False], "power": [None],
@@ -68,6 +69,8 @@ def encode(op, a):
         c["p"], c["v"] = a[0], list(a[1])
     elif op == "open_tx_pipe":
         c["v"] = list(a)
+    elif op == "load_ack":
+        c["n"], c["p"] = a
     elif a is None:
         pass
     elif isinstance(a, bool):
@@ -97,6 +100,9 @@ def invoke(nrf, op, a):
         return getattr(nrf, op)(a)
     if op == "get_auto_retries":
         return nrf.get_auto_retries()
+    if op == "load_ack":
+        nrf.load_ack(bytes(range(a[0])), a[1])
+        return None
     if op in ("start_carrier_wave", "stop_carrier_wave", "update", "flush_rx", "flush_tx"):
         getattr(nrf, op)()
         return None
